@@ -5,6 +5,8 @@ import Driver.Suites.Request
 import Driver.Suites.Readpath
 import Driver.Suites.WQ
 import Driver.Suites.Cache
+import Driver.Suites.PD
+import Driver.Suites.PW
 /-! Table of suites known to the driver.  One line per suite (merge=union friendly). -/
 namespace Driver
 def registry : List Suite := [
@@ -15,5 +17,9 @@ def registry : List Suite := [
   Suites.Readpath.suite,
   Suites.WQ.suite,
   Suites.Cache.suite,
+  Suites.PD.suite,
+  Suites.PW.suitePW,
+  Suites.PW.suiteBP,
+  Suites.PW.suiteVF,
 ]
 end Driver
